@@ -562,6 +562,8 @@ class Rooms(Combinator[RoomsType]):
             raise ValueError("index out of bounds")
         height = env.height
         width = env.width
+        if height <= 0 or width <= 0:
+            raise ValueError("board size must be positive")
 
         combinator = Tupl(
             Grid(MultiDigit(base=2, digits=5), height=height, width=width - 1),
